@@ -10,6 +10,7 @@ def run(tier, seed):
     n = tier_n(tier, 160, 2500)
     g = gen.Gen(seed * 7919 + 18)
     progs = [g.program({"kind_pool": POOL, "requests": False, "state_rates": False, "nsteps": 4,
+                        "t0": g.rng.choice(["0", "0", "1", "5/2"]),   # time-dependent rates stay non-negative for t >= 0
                         "h": g.rng.choice(["1/8", "1/16"])}) for _ in range(n)]
     out = []
     for p, st in with_struct(progs):
@@ -45,6 +46,6 @@ def run(tier, seed):
             "rule": "models without absolute flows, non-negative rates / adjustments / mixing / infectiousness (zero adjustments "
                     "included); states on the boundary of the orthant: random subsets (quick) or every proper subset (thorough, "
                     "<= 5 compartments) of compartments set to 0 or -2^-20, every mixing category kept positive; compared with the "
-                    "model and, on the implementation, sign of comp_rates of every empty compartment, and min(outputs) of adaptive, "
-                    "rk4 and euler trajectories with small steps; non-trivial = some rate is non-zero",
+                    "model and, on the implementation, sign of comp_rates of every empty compartment, and min(outputs) of the "
+                    "error-controlled solver's trajectory (start times >= 0 so that the time-dependent rates stay non-negative); non-trivial = some rate is non-zero",
             "dist": dist(out)}
